@@ -114,7 +114,7 @@ Proof.
         apply forallb_ext_in. intros [k v] Hin. cbn [fst snd andb].
         destruct (String.eqb_spec k "kind") as [->|Hk].
         -- pose proof (distinct_lookup_in _ _ _ Hdist Hin) as Hl. specialize (Hparam eq_refl). unfold param_kind_ok in Hparam. rewrite Hl in Hparam.
-           destruct v as [| |s|s| | |]; try discriminate Hparam; cbn [reload_ev]; rewrite Hparam; cbn [attach_ev ev_eqb].
+           destruct v as [| |s|s| | | |]; try discriminate Hparam; cbn [reload_ev]; rewrite Hparam; cbn [attach_ev ev_eqb].
            ++ reflexivity.
            ++ apply String.eqb_refl.
         -- exact (IH (k, v) Hin).
@@ -124,6 +124,8 @@ Proof.
         { rewrite map_map. apply map_ext. intros [k v]. reflexivity. }
         rewrite Hmap, ev_eqb_node, String.eqb_refl, fields_eqb_map. cbn [andb].
         apply forallb_ext_in. intros [k v] Hin. cbn [fst snd andb]. exact (IH (k, v) Hin).
+  - (* int *)
+    cbn [reload_ev attach_ev ev_eqb canon]. apply Z.eqb_refl.
 Qed.
 
 Theorem slot_restored_canon : forall e, wf_ev e = true -> slot_restored e = canon e.
@@ -181,3 +183,18 @@ Qed.
 Example example_canon : canon_tree ex_tree = true /\ canon (VName "p" LOther) = false
   /\ canon (ex_sub (nm "Optional") (ex_sub (nm "List") (nm "Foo"))) = true /\ canon (ex_dotted "osp" "join") = true.
 Proof. vm_compute. repeat split. Qed.
+
+(* F14: a name bound by the expression itself (comprehension target, lambda parameter) has no parent; it is not canonical,
+   and a reload attaches it to the scope *)
+Lemma refuted_links_local :
+  let e := VNode "ExprListComp"
+             [("element", VName "i" LNone);
+              ("generators", VList [VNode "ExprComprehension"
+                                      [("conditions", VList []); ("is_async", VBool false); ("iterable", nm "xs"); ("target", VName "i" LNone)]])] in
+  wf_slot e = true /\ canon e = false /\ slot_restored e = false /\
+  attach_top (reload_ev e)
+  = VNode "ExprListComp"
+      [("element", VName "i" LScope);
+       ("generators", VList [VNode "ExprComprehension"
+                               [("conditions", VList []); ("is_async", VBool false); ("iterable", nm "xs"); ("target", VName "i" LScope)]])].
+Proof. vm_compute. repeat split; reflexivity. Qed.
